@@ -369,10 +369,14 @@ def _has_positional(inp):
 
 
 def _val_has_set(vj):
-    if isinstance(vj, list):
-        if vj and vj[0] in ("s", "fs") and len(vj) == 2 and isinstance(vj[1], list) and len(vj[1]) > 1:
-            return True
-        return any(_val_has_set(x) for x in vj)
+    """Does the encoded value hold a set / frozenset of more than one element?  (iterative: values nest to depth 150 in C07)"""
+    todo = [vj]
+    while todo:
+        x = todo.pop()
+        if isinstance(x, list):
+            if x and x[0] in ("s", "fs") and len(x) == 2 and isinstance(x[1], list) and len(x[1]) > 1:
+                return True
+            todo.extend(x)
     return False
 
 
